@@ -30,7 +30,9 @@ ErrorItems == {Er("hash_error", 1, 0, 0), Er("unknown_dir", 1, 0, 0), Er("unterm
                \* errors raised by the code generator through compiler_error (Error::Compiler)
                Er("cond_partial", 4, 2, 2), Er("cond_partial0", 4, 2, 2), Er("arith_partial", 4, 2, 2), Er("arith_partial0", 4, 2, 2),
                \* an error located at the first token of a declaration (with where = "top": at offset 0 of the whole text)
-               Er("complex_type", 1, 0, 0), Er("complex_local", 3, 1, 1), Er("complex_param", 3, 1, 1)}
+               Er("complex_type", 1, 0, 0), Er("complex_local", 3, 1, 1), Er("complex_param", 3, 1, 1),
+               \* break / continue where only one of them is allowed: continue inside a switch that is not inside a loop
+               Er("continue_in_switch", 5, 2, 2), Er("continue_in_switch0", 5, 2, 2)}
 
 RECURSIVE Sum(_, _)
 Sum(s, i) == IF i > Len(s) THEN 0 ELSE s[i].n + Sum(s, i + 1)
